@@ -403,7 +403,18 @@ def check_lane_adjacency(ctx, R="C20.adjacent"):
                 srcs.append(it)
         whole = [it for it in srcs if unparse(it) in (f"{lv}.sections", f"tuple({lv}.sections)", f"list({lv}.sections)")]
         partial = [x for x in ast.walk(loop) if isinstance(x, ast.Subscript) and unparse(x.value) == f"{lv}.sections"]
-        if whole and not partial:
+        # neighbours are kept per lane object: a mapping keyed by something else (a per-section id, a name) merges different lanes
+        keyed = [s_ for s_ in ast.walk(loop) if isinstance(s_, ast.Assign) and any(isinstance(t, ast.Subscript) and isinstance(t.value, ast.Name) for t in s_.targets)]
+        badkey = [s_ for s_ in keyed for t in s_.targets if isinstance(t, ast.Subscript) and unparse(t.slice) not in (unparse(s_.value), f"id({unparse(s_.value)})")]
+        if whole and not partial and badkey:
+            ctx.finding(
+                R,
+                badkey[0],
+                "lane adjacency de-duplicated by a foreign key",
+                f"Road.toScenicRoad collects a lane's neighbours in a mapping keyed by `{unparse(badkey[0].targets[0].slice)}` (`{norm_text(badkey[0], 50)}`): OpenDRIVE lane ids are "
+                f"numbered per lane section, so two different neighbouring lanes of different sections share a key and one of them is dropped, while it still lists this lane",
+            )
+        elif whole and not partial:
             ctx.ok(R, n, f"a lane's adjacent lanes are collected from every one of its sections (`{unparse(whole[0])}`)")
         else:
             ctx.finding(
@@ -413,6 +424,38 @@ def check_lane_adjacency(ctx, R="C20.adjacent"):
                 f"Road.toScenicRoad sets `{unparse(n.targets[0])}` from `{norm_text(partial[0], 40) if partial else 'no iteration over ' + lv + '.sections'}`, not from all sections of the lane: a lane that gains a "
                 f"neighbour part-way along the road omits it although that neighbour lists the lane (adjacency is no longer reciprocal)",
             )
+
+
+
+def check_end_sections(ctx, R="C20.reconnect"):
+    """part of C20.reconnect: a road's link to what follows it belongs to its LAST section, the link to what precedes it to its FIRST"""
+    model = ctx.model
+    m = model.module(XP)
+    n = 0
+    for q, fn in m.functions.items():
+        for a in walk_local(fn):
+            if not isinstance(a, ast.Assign):
+                continue
+            for t in a.targets:
+                if isinstance(t, ast.Attribute) and t.attr in ("_successor", "_predecessor") and isinstance(t.value, ast.Subscript) and isinstance(t.value.value, ast.Attribute) and t.value.value.attr == "sections":
+                    idx = lib.const(t.value.slice)
+                    if isinstance(t.value.slice, ast.UnaryOp) and isinstance(t.value.slice.op, ast.USub):
+                        idx = -lib.const(t.value.slice.operand) if lib.const(t.value.slice.operand) is not None else None
+                    if idx is None:
+                        continue
+                    n += 1
+                    want = -1 if t.attr == "_successor" else 0
+                    if idx == want:
+                        ctx.ok(R, a, f"{q}: `{unparse(t)}` links the {'last' if want else 'first'} section")
+                    else:
+                        ctx.finding(
+                            R,
+                            a,
+                            f"{q}: {t.attr} set on section {idx}",
+                            f"{q} sets `{unparse(t)}`: what follows a road is the successor of its LAST section (sections[-1]) and what precedes it the predecessor of its FIRST "
+                            f"(sections[0]); on a road with several sections the wrong section gets the link and the end section keeps none, so successor / predecessor links are not reciprocal",
+                        )
+    ctx.floor(R, n, 2, "successor / predecessor links set on end sections of a road")
 
 
 def check_cover(ctx, R="C20.cover"):
@@ -499,7 +542,11 @@ def check_cover(ctx, R="C20.cover"):
 def check(ctx):
     ctx.run(check_adjacency)
     ctx.run(check_lane_adjacency)
+    ctx.run(check_end_sections)
     ctx.run(check_cover)
+    from .c18 import check_options_hash
+
+    ctx.run(check_options_hash, R="C20.options")  # the map options digest of the cache key is computed by the same function
     ctx.run(check_cache_guard)
     ctx.run(check_layout)
     ctx.run(check_reconnect)
